@@ -90,10 +90,10 @@ def run(ctx):
         mcs = [("mc-merge", "merge", (2, 3, 2, 1, 0), MACH), ("mc-slide", "slide", (2, 4, 2, 1, 0), MACH),
                ("mc-groups", "groups", (2, 2, 2, 1, 0), MACH), ("mc-oi", "merge", (1, 0, 1, 1, 3), "OrderInsensitivityAll")]
     else:
-        mcs = [("mc-merge", "merge", (3, 3, 2, 2, 0), MACH), ("mc-slide", "slide", (2, 4, 2, 2, 0), MACH),
+        mcs = [("mc-merge", "merge", (3, 3, 2, 2, 0), MACH), ("mc-slide", "slide", (2, 3, 2, 2, 0), MACH), ("mc-slide2", "slide", (1, 5, 2, 1, 0), MACH),
                ("mc-groups", "groups", (2, 3, 2, 1, 0), MACH), ("mc-groups2", "groups", (2, 2, 3, 2, 0), MACH),
                ("mc-oi", "merge", (1, 0, 1, 1, 4), "OrderInsensitivityAll")]
-    n = 260 if ctx.quick else 2500
+    n = 260 if ctx.quick else 1500
     jobs = []
     for j, mode in enumerate(MODES):
         jobs.append((f"{mode}-a", mode, (3, 6, 3, 3), n, ctx.seed * 100 + j))
